@@ -426,6 +426,28 @@ def alloc_symmetry_cxx(ctx, crate, cx):
                "size expression %s (Rust: Layout::new::<VectorHeader>().extend(Layout::array::<T>(capacity)))" % asz)
         ctx.ob(R, "resolvo::Vector", "align==alignof(Header)", aal == "alignof(Header)", "cpp/include/resolvo_vector.h", "align expression %s" % aal)
         ctx.ob(R, "resolvo::Vector", "free-passes-inner", "inner" in fr[0][1][0], "cpp/include/resolvo_vector.h", "freed pointer: %s" % fr[0][1][0])
+    # copy-on-write protocol of push_back: detach(size + 1) before the placement new at end()
+    n_pb = 0
+    for m in cxx.walk(rec, lambda n: n.get("kind") == "CXXMethodDecl" and n.get("name") == "push_back"):
+        body = [x for x in m.get("inner", []) if x.get("kind") == "CompoundStmt"]
+        if not body:
+            continue
+        n_pb += 1
+        stmts = [x for x in body[0].get("inner", []) if isinstance(x, dict)]
+        first_calls = cxx.walk(stmts[0], lambda n: n.get("kind") in ("CallExpr", "CXXMemberCallExpr")) if stmts else []
+        ok = False
+        detail = "first statement is not a call"
+        if first_calls:
+            c = first_calls[0]
+            nm = [x.get("member") or x.get("name") or (x.get("referencedDecl") or {}).get("name")
+                  for x in cxx.walk(c, lambda n: n.get("kind") in ("MemberExpr", "UnresolvedMemberExpr", "CXXDependentScopeMemberExpr", "DeclRefExpr", "UnresolvedLookupExpr"))]
+            args = [expr_str(a) for a in c.get("inner", [])[1:]]
+            ok = "detach" in nm and args == ["(size + 1)"]
+            detail = "first statement calls %s(%s)" % ([x for x in nm if x][:1], args)
+        has_new = bool(cxx.walk(m, lambda n: n.get("kind") == "CXXNewExpr"))
+        ctx.ob(R, "resolvo::Vector::push_back", "detach(size+1)-before-placement-new#%d" % n_pb, ok and has_new, "cpp/include/resolvo_vector.h",
+               "push_back first makes the buffer unique with room for size+1 elements, then constructs at end() (%s)" % detail)
+    ctx.floor(R, "push_back overloads", n_pb, 2)
     # static_assert(alignof(T) <= alignof(Header)) present
     sa = cxx.walk(rec, lambda n: n.get("kind") == "StaticAssertDecl")
     ok_sa = any("alignof" in expr_str(x.get("inner", [{}])[0]) and "<=" in expr_str(x.get("inner", [{}])[0]) for x in sa)
@@ -477,8 +499,9 @@ def alloc_symmetry_rust(ctx, crate, crs):
     if b is not None:
         names = [t["f"]["name"] for i, t in b.calls() if t.get("f")]
         targs = [" ".join(t["f"].get("targs", [])) for i, t in b.calls() if t.get("f") and t["f"]["name"] == "new"]
-        ctx.ob(R, b.key, "Layout(Header).extend(array<T>(capacity))", "extend" in names and "array" in names and any("VectorHeader" in x for x in targs),
-               b.loc(), "calls: %s" % names)
+        lay = sorted(t["f"]["name"] for i, t in b.calls() if t.get("f") and "Layout" in t["f"]["path"])
+        ctx.ob(R, b.key, "Layout(Header).extend(array<T>(capacity))", lay == ["array", "extend", "new"] and any("VectorHeader" in x for x in targs),
+               b.loc(), "Layout operations used: %s (C++ computes exactly sizeof(Header) + capacity*sizeof(T), so no padding or re-alignment may be added)" % lay)
     # Drop / Clone of Vector skip the static empty vector
     for tr, op, cmpop in (("std::ops::Drop", "fetch_sub", "Lt"), ("std::clone::Clone", "fetch_add", "Gt")):
         for b in crate.bodies:
@@ -521,6 +544,7 @@ def provider_mapping(ctx, crate, crs):
                     ctx.ob(R, "<&DependencyProvider as DependencyProvider>::get_candidates", "field:%s<-%s" % (nm, want), ok,
                            "%s:%s" % (gc.file, s["line"]), "resolvo::Candidates.%s is built from the C struct's fields %s" % (nm, sorted(names)))
         ctx.floor(R, "mapped Candidates fields", okn, 5)
+        _unmodified_fields(ctx, R, gc, "resolvo::Candidates", "<&DependencyProvider as DependencyProvider>::get_candidates")
     gd = method_body("resolvo::DependencyProvider", "get_dependencies")
     if gd is not None:
         okn = 0
@@ -534,6 +558,7 @@ def provider_mapping(ctx, crate, crs):
                            nm in names and not (({"requirements", "constrains"} - {nm}) & names), "%s:%s" % (gd.file, s["line"]),
                            "KnownDependencies.%s comes from %s" % (nm, sorted(names)))
         ctx.floor(R, "mapped Dependencies fields", okn, 2)
+        _unmodified_fields(ctx, R, gd, "resolvo::KnownDependencies", "<&DependencyProvider as DependencyProvider>::get_dependencies")
     fc = method_body("resolvo::DependencyProvider", "filter_candidates")
     if fc is not None:
         for i, t in fc.calls():
@@ -566,6 +591,40 @@ def provider_mapping(ctx, crate, crs):
                             if tg is not None and q.edge_dominates(rs, c.bb, tg, i):
                                 res.setdefault(v, set()).add(s["r"]["o"].get("v"))
         ctx.ob(R, rs.key, "returns-true-iff-Ok", res.get("Ok") == {True} and res.get("Err") == {False}, rs.loc(), "return constants per arm: %s" % res)
+
+
+def _unmodified_fields(ctx, R, b, adt, fn):
+    """Values placed into the resolvo struct are the converted C values as they are: the local holding each of them is
+    never mutably borrowed (no retain/sort/truncate/push between the conversion and the hand-over)."""
+    for i, j, s in b.assigns():
+        r = s["r"]
+        if r["k"] == "agg" and r.get("adt") == adt:
+            for nm, o in zip(r.get("fields", []), r["ops"]):
+                d = b.origin(o)
+                l = d.get("l")
+                if l is None and operand_place(o) is not None:
+                    l = operand_place(o)["l"]
+                muts = []
+                chain = [l]
+                # follow plain moves backwards to the local that received the converted value
+                cur = operand_place(o)["l"] if operand_place(o) is not None else None
+                for _ in range(4):
+                    if cur is None:
+                        break
+                    ds = b.defs_of(cur)
+                    if len(ds) == 1 and ds[0][1] != "term" and ds[0][2]["k"] == "use" and operand_place(ds[0][2]["o"]) is not None \
+                            and "p" not in operand_place(ds[0][2]["o"]):
+                        cur = operand_place(ds[0][2]["o"])["l"]
+                        chain.append(cur)
+                    else:
+                        break
+                for ii, jj, ss in b.assigns():
+                    rr = ss["r"]
+                    if rr["k"] == "ref" and rr["bk"] == "mut" and rr["p"]["l"] in chain and "p" not in rr["p"]:
+                        muts.append(ss["line"])
+                ctx.ob(R, fn, "field:%s-handed-over-unmodified" % nm, not muts, "%s:%s" % (b.file, s["line"]),
+                       "the converted value is not modified before it is given to the solver" if not muts else
+                       "the converted value is mutated (line %s) before it is given to the solver: the binding no longer reports what the C++ provider returned" % muts[0])
 
 
 def _source_fields(b, op, crate, depth=0, seen=None):
